@@ -761,7 +761,14 @@ def rw_R22(text, site, log):
     return text
 
 
-GLOBAL_REWRITES = [rw_R2, rw_R3, rw_R6, rw_R8, rw_R16, rw_R11, rw_R15, rw_R18, rw_R22]
+def rw_R24(text, site, log):
+    """Self::from_inner(E) (unsafe pointer cast, generic over AsRef<[u8]>) -> Self::v_from_slice(E)"""
+    text, n = re.subn(r'\b(Self|Event|Tags|Filter)::from_inner\(', r'\1::v_from_slice(', text)
+    log.add('R24(from_inner cast -> trusted v_from_slice)', site, n)
+    return text
+
+
+GLOBAL_REWRITES = [rw_R2, rw_R3, rw_R6, rw_R8, rw_R16, rw_R11, rw_R15, rw_R18, rw_R22, rw_R24]
 
 
 # --------------------------------------------------------------------------- splicing
